@@ -344,6 +344,11 @@ def r4(rr, repo):
             ok = 'len(' in upper and '-' in upper or any(isinstance(n, ast.NamedExpr) and 'len(' in U(n.value) and '-' in U(n.value) for n in ast.walk(sl[0].slice.upper))
             rr.ob(f"{fn.name}: everything up to the LAST piece that cannot be an option is put back onto the address (scan from the end), so a password may contain any number of {delim!r}", ok, mod, j,
                   witness=f'for ... in {it}: {U(j)[:100]}', key=f'split-cuts-credential|{fn.name}|{delim}')
+            # what decides is only the SHAPE of a piece ("looks like name=..."): a piece of the password that happens to look like an option ('pw!region=eu@host/x') is split off
+            # with the '@host' tail, and what is left ('scheme://user:pw') has no '@' for any mask to anchor on. Telling the two apart needs the '@' that ends the userinfo.
+            looks_at_userinfo = any("'@'" in g or '"@"' in g for g in guard) or any(isinstance(c_, ast.Compare) and any(q.const_str(x) == '@' for x in ast.walk(c_)) for c_ in ast.walk(loop))
+            rr.ob(f"{fn.name}: a piece is taken for an option only if the userinfo has ended before it (the test looks for the '@', not only at the shape 'name=')", looks_at_userinfo, mod, j,
+                  witness='the only test is ' + '; '.join(guard)[:120], key=f'split-cuts-credential|{fn.name}|option-like-piece')
         else:
             rr.violated(f"{fn.name}: the scan for pieces that belong to the address runs from the front and stops at the FIRST piece that cannot be an option: a password with two or more {delim!r} is still cut inside",
                         mod, j, witness=f'for ... in {it}', key=f'split-cuts-credential|{fn.name}|{delim}')
